@@ -56,6 +56,10 @@ MCInit ==
      (* an explicit value below an earlier one, then implicit ones: they count on from their predecessor *)
      \/ \E ptr \in Ptrs, base \in {"u8", "i32"}, lo \in {0, 1, 3} :
           input = MkInput(ptr, base, <<NumInt(7), NumInt(lo), NumNone, NumNone>>, 0, FALSE, FALSE)
+     (* a value that is not an integer literal (the name of another variant, a string) is no value *)
+     \/ \E ptr \in Ptrs, raw \in {"A", "\"one\""} :
+          input = [MkInput(ptr, "u16", <<NumInt(4), NumNone, NumNone, NumNone>>, 0, FALSE, FALSE)
+                     EXCEPT !.mods[1].defs[1].vars[3].raw = raw]
      \/ \E ptr \in Ptrs, base \in NonIntBases, nv \in 1..2 :
           input = MkInput(ptr, base, [i \in 1..nv |-> NumNone], 0, FALSE, FALSE)
   /\ InitRest
@@ -74,7 +78,7 @@ OutOfRange == ~NonIntBase /\ \E i \in DOMAIN Expected : ~NumFits(EBase, Expected
 Unparsable == \E i \in DOMAIN Expected : ~FitsIsize(Expected[i])
 MarkerMismatch == (EDef.defaultable /\ MarkCount = 0) \/ (~EDef.defaultable /\ MarkCount > 0)
 (* "represented as the declared integer base type": a base that is no integer type cannot be *)
-MustReject == OutOfRange \/ Unparsable \/ MarkerMismatch \/ NonIntBase
+MustReject == OutOfRange \/ Unparsable \/ MarkerMismatch \/ NonIntBase \/ HasRawValue(EDef.vars)
 
 KF_Base == ~CHECKENUMBASE /\ NonIntBase
 KF_Range == ~CHECKENUMRANGE /\ OutOfRange /\ ~Unparsable /\ ~MarkerMismatch /\ MarkCount <= 1
